@@ -319,6 +319,8 @@ def main_check(mod, tier, seed, replay_path=None):
             json.dump(ev, f, indent=1, default=repr)
     for ln in lines:
         print(ln)
+    for note in agg.notes[:5]:
+        print("  note:", json.dumps(note, default=repr)[:600])
     print(
         f"{prop} tier={tier} seed={seed}: cases={agg.evaluations} deciding={agg.deciding} "
         f"distinct_nontrivial={len(nontrivial)} violations={nviol} "
